@@ -8,7 +8,7 @@ CHECKS = {
     "C15": dict(
         technique="TLA+ spec (spec/codec/Tlv8*.tla) model-checked by TLC; TLC-exported cases replayed on TLV.encode_list/decode_*; recorded runs validated by Tlv8_Trace",
         text="TLC checks RoundTrip/Canonical/WireLenExact on the encode->wire->decode pipeline exhaustively for FRAG=3 and on the property's boundary lengths for FRAG=255, and Conservation/NoShortValue/Total on the byte-level decoder over every string of <=5 (quick) / <=6 (thorough) bytes of a 7-symbol alphabet; every enumerated case is replayed on the real codec and compared with the spec's layout/verdict; seeded random lists (values <=2000 bytes, all types) are recorded from the real codec and accepted/rejected by TLC against Tlv8_Trace.",
-        note="Content-independent model: value bytes are filled in by the concretiser. Trusted: TLC, the 15-line independent TLV reader.",
+        note="BLE pairing-reply fragment reassembly is driven through drive_pairing_state_machine with varying and constant-fill content. Content-independent model: value bytes are filled in by the concretiser. Trusted: TLC, the 15-line independent TLV reader.",
         ref="5/C15"),
 }
 
@@ -16,12 +16,12 @@ CHECKS.update({
     "C10": dict(
         technique="TLA+ spec of the connection life-cycle (spec/ip/IpConn.tla) model-checked by TLC; TLC -simulate behaviours replayed as stimuli into the real IpPairing on a virtual-time asyncio loop; recorded socket/API traces validated against IpConn_Trace (real-time, back-off table exact)",
         text="TLC checks SingleConnector/SingleAttempt/HostsNeverEmpty/ExclusionEnds/BackoffBeforeRetry/NextAddressOnce/NotStuck/NoAttemptAfterShutdown/NoSpontaneousAttemptAfterClose/WaiterAttached/ShieldRespected exhaustively on IpConn for small constants (every interleaving of connector steps, transport callbacks, timers, accessory replies, FIN/reset, API callers). Every execution of the real code (TLC behaviours replayed, seeded random stimulus sequences, hours-long failing runs) is recorded at the socket boundary and the public API and must be a behaviour of the timed specification: attempt times must equal the back-off table min(60,0.5*1.5^k) exactly, waiters return within 10 s, no attempt after shutdown, and after an honest tail the pairing must be connected (safety form of 'keeps trying').",
-        note="Trusted: TLC, the virtual-time loop (harness/vloop.py), the socketpair network and reference accessory (harness/simnet.py, harness/refacc). Readings of ambiguous clauses: DESIGN.md section 4.2.",
+        note="Directed families: long failing runs over the whole back-off table, address-exclusion histories, triggers landing inside a running close()/shutdown(), connector in its last step, listener-scheduled close. A rejected execution gets a second opinion under the loose timing reading (any wait positive and <= 60 s, back-off growing): timing constants other than the documented ones are a NOTE, not a violation. Trusted: TLC, the virtual-time loop (harness/vloop.py), the socketpair network and reference accessory (harness/simnet.py, harness/refacc). Readings of ambiguous clauses: DESIGN.md section 4.2.",
         ref="5/C10"),
     "C11": dict(
         technique="TLA+ spec of the connection life-cycle (spec/ip/IpConn.tla) model-checked by TLC; recorded executions of the real code validated against IpConn_Trace with the set of sockets open on the accessory side compared after every settled step",
         text="TLC checks AtMostOneOpen/AtMostOneHeld/HeldIsCurrent/AfterCloseNothingHeld/StaleLossHarmless exhaustively on IpConn for small constants, with every way a secure-session setup can end, FIN and reset of old and new sockets in every order, and close()/shutdown() from every state. Trace validation binds it to the code: after every settled step the accessory-side set of open sockets must equal the specification's, every EOF seen by the accessory must be explained by a controller close, close()/shutdown() must return normally.",
-        note="The simulated network is made of AF_UNIX socket pairs: TCP-only error behaviour of the socket layer (shutdown() failing with ENOTCONN after a peer reset) is not reproduced. Trusted: TLC, harness/vloop.py, harness/simnet.py, harness/refacc. Histories where a trigger races with an unfinished close() are accepted either way (DESIGN.md 4.2).",
+        note="Same directed families and loose timing second opinion as C10; a rejected execution that shows an attempt or an open connection after a returned close() is reported under C11 whatever its first unexplained event. The simulated network is made of AF_UNIX socket pairs: TCP-only error behaviour of the socket layer (shutdown() failing with ENOTCONN after a peer reset) is not reproduced. Trusted: TLC, harness/vloop.py, harness/simnet.py, harness/refacc. Histories where a trigger races with an unfinished close() are accepted either way (DESIGN.md 4.2).",
         ref="5/C11"),
 })
 
@@ -29,7 +29,7 @@ CHECKS.update({
     "C08": dict(
         technique="TLA+ spec of the request plane (spec/ip/IpReq.tla) model-checked by TLC (safety exhaustively, NoHang as liveness under fairness); recorded executions of the real SecureHomeKitConnection on a virtual-time loop validated against IpReq_Trace (timed)",
         text="TLC checks OwnResponse, EventsInOrder, NoWriteAfterFault, NoStaleCompletion, SemConsistent, NoOrphan on every interleaving of {issue, response whole / in two pieces, EVENT, unsolicited response, FIN, reset, 30 s timer, caller cancel, reconnect} for 2-3 callers and 2 sockets, and NoHang under weak fairness. Seeded random stimulus sequences (with partial settling of the loop so that stimuli land between callbacks) drive the real connection; every recorded trace must be a behaviour of the timed spec: each API outcome, the request a delivered body was written for, listener calls, and completion exactly at the loss or at write time + 30 s.",
-        note="Trusted: TLC, harness/vloop.py, harness/simnet.py, harness/refacc. Assumptions listed in the evidence (write to a peer-closed socket may fail at once; unsolicited response only while nothing is outstanding).",
+        note="Besides the random stimulus mix, directed families pin the interleavings single clauses need: cancellation inside the delivering loop iteration (capacity 2), tail of a split response coalesced with EVENTs, chunked responses cut at chunk boundaries, a hung accessory with an unflushed request (EOF, owner close, late reset). An exception escaping from the library into the event loop is an event (loop_exc) no step of the specification explains (the IndexError of an unsolicited response is modelled). Trusted: TLC, harness/vloop.py, harness/simnet.py, harness/refacc. Assumptions listed in the evidence (write to a peer-closed socket may fail at once; unsolicited response only while nothing is outstanding).",
         ref="5/C08"),
 })
 
@@ -37,7 +37,7 @@ CHECKS.update({
     "C12": dict(
         technique="TLA+ spec of subscriptions, listeners and event delivery (spec/ip/IpSubs.tla) model-checked by TLC (depth-bounded exhaustive + simulation); recorded histories of the real IpPairing validated against IpSubs_Trace with the invariants evaluated in every state",
         text="TLC checks ResubscribedAfterReconnect, ToldUp, ExactlyOnce, NeverTwice, InOrder, ListenersDoNotDrop over subscribe/unsubscribe operations cut at any point by a disconnection, reconnects, listener add/remove, raising and self-removing listeners, events and ignored bodies. Seeded random histories drive the real IpPairing over the simulated accessory (registrations recorded per session, events in bursts / split across reads / empty / non-JSON); every recorded trace must be a behaviour of the spec and keep the invariants.",
-        note="Trusted: TLC, harness/vloop.py, harness/simnet.py, harness/refacc. Events still unread when the connection is lost are not claimed.",
+        note="The simulated accessory may refuse part of a subscribe request (HTTP 207), frames bursts per event / in small frames, and the pairing starts with the whole, a stale or no accessory database. Trusted: TLC, harness/vloop.py, harness/simnet.py, harness/refacc. Events still unread when the connection is lost are not claimed.",
         ref="5/C12"),
     "C07": dict(
         technique="TLC model checking of a byte-class state machine of the HTTP/EVENT parser's algorithm over all segmentations of small message sequences (spec/http/HttpParser.tla); exported streams replayed on the real feed loop under all <=2-cut sets and random multi-cuts; recorded runs validated by TLC (HttpParser_Trace)",
@@ -55,7 +55,7 @@ CHECKS.update({
     "C05": dict(
         technique="TLA+ byte-count model of the secure-session framing (spec/session/SecureFraming.tla) model-checked by TLC (every segmentation for tiny constants, boundary cut classes for the real ones); TLC -simulate behaviours replayed on the real SecureHomeKitProtocol; recorded runs (all single/double cuts, all corruption sites and bits, outbound layouts) validated by TLC against SecureFraming_Trace",
         text="TLC checks InboundExact, NeverEarly, CounterIsFrameIndex, CorruptNeverDelivered, DeadOnlyByCorruption, AuthFailureEndsSession, AlignedInvariant, OutboundExact for all frame-size lists of <=3 frames, all read sequences and every single corruption (length prefix / ciphertext / tag). On the real code the reference accessory's encrypted EVENT stream, cut into the chosen frame sizes and reads, must produce exactly the specification's number of decrypted frames after every read (observed at the AEAD boundary), consecutive counters from 0, the EVENT messages contained in the decrypted prefix, a RuntimeError exactly when the spec's session dies; every request of the boundary lengths must leave in one writelines call that the reference accessory decrypts to the request with the spec's frame layout.",
-        note="AEAD assumed ideal. Decrypts observed by substituting a logging subclass of the decryptor class in the connection module. Trusted: TLC, harness/refacc (independent ChaCha20-Poly1305 framing).",
+        note="Outbound sessions include pipelined requests (2-3 written before the first answer) and long sessions (300-1500 frames in each direction, frame counters beyond one byte). AEAD assumed ideal. Decrypts observed by substituting a logging subclass of the decryptor class in the connection module. Trusted: TLC, harness/refacc (independent ChaCha20-Poly1305 framing).",
         ref="5/C05"),
     "C13": dict(
         technique="TLA+ spec of per-characteristic read/write reporting on IP, CoAP and BLE (spec/chars/CharIO.tla) model-checked by TLC over all replies of a bounded domain; TLC-exported cases concretised as scripted accessory replies and run on the real IpPairing (in-process secure session), format_characteristic_list, CoAPPairing (real encryption context and PDU codec) and BlePairing.put_characteristics (scripted GATT); every observation (plus seeded random replies) validated by TLC against CharIO_Trace",
@@ -73,7 +73,7 @@ CHECKS.update({
     "C06": dict(
         technique="TLA+ spec of the counter discipline of the IP, BLE and CoAP session layers (spec/session/SessionCounters.tla) model-checked by TLC; TLC behaviours and seeded histories driven on the real layers with AEAD-boundary observations validated against SessionCounters_Trace; CoAP resynchronisation heuristics modelled as named deviation actions (known findings)",
         text="TLC checks NoNonceReuse, AcceptOnceInOrder, AcceptPrefix, ClosedEpochUnused over all sequences of {request of n frames, accessory message, deliver next / replay / future, corrupted, abandon, re-key, CoAP events} to a depth bound for IP, BLE and CoAP (without the rewind/reset heuristics). The same alphabet is driven on SecureHomeKitProtocol, EncryptionKey/DecryptionKey and EncryptionContext/EventResource; every recorded execution must be a behaviour of the spec. With the CoAP deviations enabled TLC finds the two recorded counterexamples and the check replays them on the real EncryptionContext each run (KNOWN-FINDING); CoAP traces are accepted only if explained without a deviation or by a listed one. Counters and epochs unbounded: Apalache discharges the inductive invariant IndInv (initiation, consecution, IndInv => both properties) and refutes it with the deviations on. BLE additionally at pairing level: seeded executions of the real BlePairing (calls, faults, link loss, cancellation, close) recorded at the AEAD boundary are validated against the BLE session model (spec/ble/BleSession.tla) with NoNonceReuse, AcceptOnceInOrder, FreshKeys, DeadEpochUnused.",
-        note="AEAD assumed ideal. IP driven at the protocol object over a stub transport (the full-stack request plane is C08's), BLE at the key objects and at the pairing over a simulated GATT client, CoAP with a stub aiocoap context. Known findings: known_findings.json (coap-resync-rewind, coap-resync-reset).",
+        note="BLE is bound at three levels: key objects, the real ble_request (refused writes, lost / replayed / corrupted fragments) and the pairing (through the BLE session model). Re-key freshness: the first flight of every real pair-verify must carry a controller ephemeral key no earlier one used (trace step rekey{fresh}). AEAD assumed ideal. IP driven at the protocol object over a stub transport (the full-stack request plane is C08's), BLE at the key objects and at the pairing over a simulated GATT client, CoAP with a stub aiocoap context. Known findings: known_findings.json (coap-resync-rewind, coap-resync-reset).",
         ref="5/C06"),
 })
 
